@@ -1,11 +1,28 @@
 //! VERIF MODEL of `crossbeam_queue::SegQueue`: an unbounded FIFO with `&self` push/pop.
-//! Sequential (a `RefCell<VecDeque>`): CBMC has no thread model, and the harnesses are
+//!
+//! Sequential (a `RefCell` around the state): CBMC has no thread model and the harnesses are
 //! single-threaded. `Sync` is asserted so that the types holding a queue keep their auto traits.
+//!
+//! Representation: a singly linked list of individually boxed nodes, so that every object in
+//! play is SMALL. Measured: a queue object of 152 bytes (eight inline `Option<Box<dyn ..>>`
+//! slots) that is moved into a heap allocation (`Arc<Queue>` in specs' `LazyUpdate`) is copied
+//! bytewise, after which CBMC no longer propagates the counters or the fat pointers stored in
+//! it: every `pop` was "maybe empty" and every `dyn` call on a popped element an n-way choice.
+//! With 24-byte nodes both stay constants.
 use std::cell::RefCell;
-use std::collections::VecDeque;
+
+struct Node<T> {
+    val: T,
+    next: Option<Box<Node<T>>>,
+}
+
+struct List<T> {
+    len: usize,
+    head: Option<Box<Node<T>>>,
+}
 
 pub struct SegQueue<T> {
-    inner: RefCell<VecDeque<T>>,
+    inner: RefCell<List<T>>,
 }
 
 unsafe impl<T: Send> Send for SegQueue<T> {}
@@ -13,25 +30,47 @@ unsafe impl<T: Send> Sync for SegQueue<T> {}
 
 impl<T> SegQueue<T> {
     pub const fn new() -> SegQueue<T> {
-        SegQueue { inner: RefCell::new(VecDeque::new()) }
+        SegQueue { inner: RefCell::new(List { len: 0, head: None }) }
     }
     pub fn push(&self, value: T) {
-        self.inner.borrow_mut().push_back(value)
+        let mut q = self.inner.borrow_mut();
+        q.len += 1;
+        let mut cur = &mut q.head;
+        while let Some(n) = cur {
+            cur = &mut n.next;
+        }
+        *cur = Some(Box::new(Node { val: value, next: None }));
     }
     pub fn pop(&self) -> Option<T> {
-        self.inner.borrow_mut().pop_front()
+        let mut q = self.inner.borrow_mut();
+        match q.head.take() {
+            None => None,
+            Some(n) => {
+                let n = *n;
+                q.head = n.next;
+                q.len -= 1;
+                Some(n.val)
+            }
+        }
     }
     pub fn is_empty(&self) -> bool {
-        self.inner.borrow().is_empty()
+        self.inner.borrow().len == 0
     }
     pub fn len(&self) -> usize {
-        self.inner.borrow().len()
+        self.inner.borrow().len
     }
 }
 
 impl<T> Default for SegQueue<T> {
     fn default() -> SegQueue<T> {
         SegQueue::new()
+    }
+}
+
+impl<T> Drop for SegQueue<T> {
+    fn drop(&mut self) {
+        // iterative, like the real queue (no recursion over the list)
+        while self.pop().is_some() {}
     }
 }
 
